@@ -490,6 +490,8 @@ func runC17(c C17Case) *Outcome {
 					if len(wc) > 48 {
 						wc = wc[:45] + "..."
 					}
+					// the table cuts by bytes and may split a multi-byte character: compare in U+FFFD-normalised form
+					wc = fix(wc)
 					if strings.TrimRight(wc, " ") != printed[k].cmd {
 						return fail("result-order", "step %d: table row %d shows %q, the engine's result %d is %q", i, k+1, printed[k].cmd, k+1, wc)
 					}
